@@ -163,7 +163,7 @@ def fam_ang(case):
                      G.ang_tol(O[idx[b]][idx[c]]))
             if Df[a, c] > Df[a, b] + Df[b, c] + slack:
                 viol.append(V("GeoGrid.angular_distance:triangle",
-                              "points %s" % [pts[a], pts[b], pts[c]],
+                              "points %s" % ([pts[a], pts[b], pts[c]],),
                               [Df[a, c], Df[a, b], Df[b, c]],
                               "d(a,c) <= d(a,b)+d(b,c)+%.3g" % slack))
     else:
@@ -174,7 +174,7 @@ def fam_ang(case):
             if np.any(bad):
                 a, c = np.argwhere(bad)[0]
                 viol.append(V("GeoGrid.angular_distance:triangle",
-                              "points %s" % [pts[a], pts[b], pts[c]],
+                              "points %s" % ([pts[a], pts[b], pts[c]],),
                               [Df[a, c], Df[a, b], Df[b, c]],
                               "d(a,c) <= d(a,b)+d(b,c)+accepted errors"))
     return {"viol": viol, "evals": ev, "trivial": n == 1,
@@ -225,7 +225,7 @@ def fam_euc(case):
         if np.any(bad):
             a, c = np.argwhere(bad)[0]
             viol.append(V("Grid.euclidean_distance:triangle",
-                          "points %s" % [pts[a], pts[b], pts[c]],
+                          "points %s" % ([pts[a], pts[b], pts[c]],),
                           [Df[a, c], Df[a, b], Df[b, c]],
                           "d(a,c) <= d(a,b)+d(b,c)"))
             break
@@ -251,8 +251,8 @@ def fam_euc_lookup(case):
         if r not in best:
             viol.append(V("Grid.node_number:not-nearest:dim%d" % dim,
                           "grid %s query %s" % (pts, q), r, best))
-    return {"viol": viol, "evals": len(queries), "sig": (dim, str(pts),
-                                                          tuple(sig))}
+    return {"viol": viol, "evals": len(queries),
+            "sig": (dim, str(pts), tuple(sig))}
 
 
 def fam_geo_lookup(case):
@@ -767,7 +767,8 @@ def run(ctx):
                 cases.append([list(t), d, m])
     ctx.explore("spatial_net", cases, chunk=64,
                 desc="Euclidean link distances on SpatialNetwork")
-    ctx.notes.update({"alphabet_points": NT if thorough else NA, "sub_alphabet": len(SUB),
+    ctx.notes.update({"alphabet_points": NT if thorough else NA,
+                      "sub_alphabet": len(SUB),
                       "euclidean_dims": "1..4", "graphs_nodes_max": 3,
                       "angular_error_bound":
                           "min(2^-10, 8 eps32/max(sin t, sqrt eps32) + "
